@@ -43,3 +43,57 @@ def load():
 def secsgem_modules():
     load()
     return [m for n, m in list(sys.modules.items()) if (n == "secsgem" or n.startswith("secsgem.")) and m is not None]
+
+
+_shimmed = False
+
+
+def install_shims():
+    """Rebind stdlib concurrency/time/io modules inside every secsgem module to the virtual runtime.
+
+    secsgem writes `import threading` etc. and resolves attributes at call time, so rebinding the module
+    global is enough; names imported with `from threading import X` are rebound by identity as well.
+    """
+    global _shimmed
+    load()
+    if _shimmed:
+        return
+    import queue  # noqa: PLC0415
+    import random  # noqa: PLC0415
+    import select  # noqa: PLC0415
+    import socket  # noqa: PLC0415
+    import threading  # noqa: PLC0415
+    import time  # noqa: PLC0415
+
+    from mc import vrt  # noqa: PLC0415
+
+    try:
+        from mc import vnet  # noqa: PLC0415
+    except ImportError:
+        vnet = None
+
+    modmap = {threading: vrt.vthreading, queue: vrt.vqueue, time: vrt.vtime, random: vrt.vrandom}
+    if vnet is not None:
+        modmap[select] = vnet.vselect
+        modmap[socket] = vnet.vsocket
+        try:
+            import serial  # noqa: PLC0415
+
+            modmap[serial] = vnet.vserial
+        except ImportError:
+            pass
+    objmap = {
+        threading.Thread: vrt.Thread, threading.Event: vrt.Event, threading.Lock: vrt.Lock, threading.RLock: vrt.RLock,
+        threading.Condition: vrt.Condition, threading.Timer: vrt.Timer, queue.Queue: vrt.Queue, queue.Empty: vrt.Empty,
+        time.sleep: vrt.vtime.sleep, time.time: vrt.vtime.time, time.monotonic: vrt.vtime.monotonic, random.randint: vrt.vrandom.randint,
+    }
+    for mod in secsgem_modules():
+        for name, val in list(vars(mod).items()):
+            try:
+                if val in modmap:
+                    setattr(mod, name, modmap[val])
+                elif val in objmap:
+                    setattr(mod, name, objmap[val])
+            except TypeError:
+                continue  # unhashable module global
+    _shimmed = True
